@@ -672,7 +672,7 @@ func judge(h *Header, evs []Ev) *judgement {
 				hostile++
 			}
 		case "info-ret":
-			if h.Scenario.App.InfoLie != "" {
+			if h.Scenario.App.InfoLie != "" || h.Scenario.App.Info != nil {
 				hostile++
 			}
 		}
@@ -689,7 +689,7 @@ func judge(h *Header, evs []Ev) *judgement {
 		case "apply-call":
 			fmt.Fprintf(&sb, "A%d<%d%v;", e.I, e.P, strings.HasPrefix(string(unhex(e.B)), "T"))
 		case "info-ret":
-			fmt.Fprintf(&sb, "I%d/%d;", e.H, e.Ver)
+			fmt.Fprintf(&sb, "I%d/%d/%.10s/%d;", e.H, e.Ver, e.B, len(e.B))
 		case "sync-ret":
 			fmt.Fprintf(&sb, "R%v;", e.OK)
 		case "peer-stop":
